@@ -217,7 +217,7 @@ AM = r"^impl ArrayMeta \{"
 FAMILIES["arrmeth"] = {
     "anchor": "src/algorithm/monadic/mod.rs Array::reverse_depth; src/array.rs ArrayMeta mark helpers, ArrayFlags methods, Array::validate, validate_shape, row_slice; src/algorithm/mod.rs ArrayCmpSlice",
     "bound": "byte arrays of shapes [3], [4], [2,2], [2,3]; all 16 flag sets",
-    "header": "use crate::shim::*;\nuse crate::eco_vec;\nuse std::ops::{Deref, DerefMut};\nuse std::fmt;\n",
+    "header": "use crate::shim::*;\nuse crate::eco_vec;\nuse std::ops::{Deref, DerefMut};\nuse std::fmt;\nuse std::iter::once;\n",
     "rewrites": (PUBCRATE, ("R4", r"(?m)^\s*#\[(?:track_caller|inline\(always\)|inline)\]\n", "", "attribute dropped")),
     "dropped": "serde attributes and serde trait bounds (ArrayMetaInner, ArrayRep, ArrayValueSer); ArrayFlags itself (a bitflags! type), MapKeys (opaque token), Array::map / MapKeys::normalized (assumed inverse of each other) are hand models in the shim",
     "groups": [
@@ -242,7 +242,7 @@ FAMILIES["arrmeth"] = {
         {"wrap": "impl ArrayMeta", "items": [
             {"kind": "fn", "file": "src/array.rs", "impl": AM, "fn": f} for f in
             ["get_inner_mut", "get_mut", "is_sorted_up", "is_sorted_down", "take_sorted_flags", "take_value_flags", "or_sorted_flags",
-             "mark_sorted_up", "mark_sorted_down", "reset_flags", "take_map_keys", "take_label"]]},
+             "mark_sorted_up", "mark_sorted_down", "reset_flags", "take_map_keys", "take_label", "map_keys_mut"]]},
         {"prefix": "#[derive(Debug, Clone, Default, PartialEq, Eq)]\n", "items": [
             {"kind": "block", "name": "struct ArrayMetaInner", "file": "src/array.rs", "header": r"^pub struct ArrayMetaInner \{",
              "rewrites": (("R4", r"(?m)^\s*#\[serde\([^\n]*\)\]\n", "", "serde field attribute dropped"),)}]},
@@ -281,6 +281,10 @@ FAMILIES["arrmeth"] = {
         ] + [
             {"kind": "fn", "name": "Array::" + f, "file": "src/algorithm/monadic/mod.rs", "impl": r"^impl<T: ArrayValue> Array<T> \{", "fn": f}
             for f in ["classify", "deduplicate", "unique", "count_unique", "occurrences", "first", "last"]
+        ] + [
+            {"kind": "fn", "name": "Array::" + f, "file": "src/algorithm/dyadic/structure.rs", "impl": r"^impl<T: ArrayValue> Array<T> \{", "fn": f,
+             "rewrites": (("R1", r"^fn ", "pub fn ", "visibility widened"),)}
+            for f in ["drop", "drop_impl"]
         ]},
     ],
 }
